@@ -1,10 +1,10 @@
 CONSTANTS
   GenIds = {1}
   MaxFrames = 3
-  MaxStack = 7
+  MaxStack = 8
   MaxRust = 3
   MaxTmp = 2
-  ArgcSet = {0}
+  ArgcSet = {0, 1}
   RegSet = {1}
 INIT Init
 NEXT Next
